@@ -274,7 +274,7 @@ Theorem proxy_list_is_view : forall s o, wf s -> pl_guard s o = true ->
   wf (snd (pl_step s o)) /\
   (fst (pl_step s o), to_list (snd (pl_step s o))) = plop_ref (to_list s) o.
 Proof.
-  intros s o W G. destruct o as [v|vs|i v|oi|v|i v|sl vs|i|sl| |vs|n| |]; cbn [pl_step plop_ref py_list_op fst snd].
+  intros s o W G. destruct o as [v|vs|i v|oi|v|i v|sl vs|i|sl| |vs|n| | |vs]; cbn [pl_step plop_ref py_list_op fst snd].
   - destruct (append_view s v W) as [W1 E]. split; auto. rewrite E; reflexivity.
   - destruct (extend_view vs s W) as [W1 E]. split; auto. simpl. rewrite E; reflexivity.
   - destruct (insert_view s i v W) as [W1 E]. split; auto. rewrite E; reflexivity.
@@ -347,6 +347,8 @@ Proof.
       * split; auto. assert (n = 1%Z) by lia. subst. unfold py_imul. simpl. rewrite app_nil_r. reflexivity.
   - discriminate.
   - discriminate.
+  - assert (W0 : wf (pl_clear s)) by (apply wf_with_col; auto; [constructor|intros o []]).
+    destruct (extend_view vs (pl_clear s) W0) as [W1 E]. split; auto. rewrite E. reflexivity.
 Qed.
 
 (* ------------------------------------------------------------------ dict proxy *)
@@ -704,4 +706,127 @@ Proof.
     destruct (ps_update_view (ord vs) s W) as [W1 E]. split; auto. rewrite E; reflexivity.
   - destruct a as [vs|vs| |]; try discriminate; simpl.
     destruct (ps_diffupdate_view (ord vs) s W) as [W1 E]. split; auto. rewrite E; reflexivity.
+Qed.
+
+(* ------------------------------------------------------------------ whole-collection assignment *)
+Lemma mem_In : forall x l, mem x l = true <-> In x l.
+Proof.
+  intros; unfold mem; rewrite existsb_exists; split.
+  - intros [y [Hy E]]; apply Z.eqb_eq in E; subst; auto.
+  - intros H; exists x; split; auto; apply Z.eqb_refl.
+Qed.
+Lemma mem_false : forall x l, mem x l = false <-> ~ In x l.
+Proof. intros; rewrite <- mem_In; destruct (mem x l); split; congruence. Qed.
+
+Lemma d_get_set : forall k k1 v1 d, d_get k (d_set k1 v1 d) = if Z.eqb k k1 then Some v1 else d_get k d.
+Proof.
+  induction d as [|[k' v'] r IH]; simpl.
+  - reflexivity.
+  - destruct (Z.eqb_spec k1 k'); simpl.
+    + subst. destruct (Z.eqb k k'); reflexivity.
+    + rewrite IH. destruct (Z.eqb_spec k k'); destruct (Z.eqb_spec k k1); subst; try congruence; reflexivity.
+Qed.
+
+Lemma d_get_update_rel : forall m d d' d0,
+  (forall k, d_get k d = match d_get k d' with Some v => Some v | None => d_get k d0 end) ->
+  forall k, d_get k (d_update d m) = match d_get k (d_update d' m) with Some v => Some v | None => d_get k d0 end.
+Proof.
+  induction m as [|[k1 v1] r IH]; intros d d' d0 H k; auto.
+  rewrite !d_update_cons. simpl fst; simpl snd. apply IH.
+  intros k2. rewrite !d_get_set. destruct (Z.eqb k2 k1); auto.
+Qed.
+
+Lemma d_get_update_keys : forall m d' k,
+  (mem k (map fst m) = true -> d_get k (d_update d' m) <> None) /\
+  (mem k (map fst m) = false -> d_get k (d_update d' m) = d_get k d').
+Proof.
+  induction m as [|[k1 v1] r IH]; intros d' k.
+  - simpl. split; [discriminate|auto].
+  - change (d_update d' ((k1, v1) :: r)) with (d_update (d_set k1 v1 d') r).
+    cbn [map fst mem existsb]. fold (mem k (map fst r)).
+    destruct (IH (d_set k1 v1 d') k) as [A B]. split.
+    + intros H. destruct (mem k (map fst r)) eqn:M; [auto|].
+      rewrite (B eq_refl), d_get_set. apply orb_prop in H. destruct H as [H|H]; [|discriminate].
+      rewrite H. discriminate.
+    + intros H. apply orb_false_elim in H. destruct H as [H1 H2].
+      rewrite (B H2), d_get_set, H1. reflexivity.
+Qed.
+
+Lemma d_get_del : forall k k1 d, d_get k (d_del k1 d) = if Z.eqb k k1 then None else d_get k d.
+Proof.
+  induction d as [|[k' v'] r IH]; simpl.
+  - destruct (Z.eqb k k1); reflexivity.
+  - destruct (Z.eqb_spec k1 k'); simpl.
+    + subst. rewrite IH. destruct (Z.eqb_spec k k'); reflexivity.
+    + rewrite IH. destruct (Z.eqb_spec k k'); destruct (Z.eqb_spec k k1); subst; try congruence; reflexivity.
+Qed.
+
+Lemma pd_del_all_view : forall rem s, wf s ->
+  wf (fold_left pd_del rem s) /\
+  forall k, d_get k (to_dict (fold_left pd_del rem s)) = if mem k rem then None else d_get k (to_dict s).
+Proof.
+  induction rem as [|k1 r IH]; intros s W; simpl; auto.
+  destruct (IH (pd_del s k1) (pd_del_wf s k1 W)) as [W1 E]. split; auto.
+  intros k. rewrite E, pd_del_view, d_get_del. destruct (Z.eqb k k1); simpl; auto.
+  destruct (mem k r); reflexivity.
+Qed.
+
+Lemma d_get_Some_keys : forall k d, d_get k d <> None -> In k (map fst d).
+Proof.
+  induction d as [|[k' v'] r IH]; simpl; intros H; [congruence|].
+  destruct (Z.eqb_spec k k'); auto.
+Qed.
+
+(* obj.proxy = m : afterwards the view IS the assigned mapping - for every old contents and every m *)
+Theorem proxy_dict_assign_view : forall s m, wf s ->
+  wf (pd_assign s m) /\
+  forall k, d_get k (to_dict (pd_assign s m)) = d_get k (d_update [] m).
+Proof.
+  intros s m W. unfold pd_assign.
+  destruct (pd_update_view m s W) as [W1 E1].
+  set (rem := filter (fun k => negb (mem k (map fst m))) (map fst (to_dict s))).
+  destruct (pd_del_all_view rem _ W1) as [W2 E2]. split; auto.
+  intros k. rewrite E2, E1.
+  rewrite (d_get_update_rel m (to_dict s) [] (to_dict s)) by (intros; reflexivity).
+  destruct (d_get_update_keys m [] k) as [A B].
+  destruct (mem k (map fst m)) eqn:M.
+  - assert (R : mem k rem = false).
+    { apply mem_false. unfold rem. intro H. apply filter_In in H. destruct H as [_ H]. rewrite M in H; discriminate. }
+    rewrite R. destruct (d_get k (d_update [] m)); auto. exfalso; apply (A eq_refl); reflexivity.
+  - rewrite (B eq_refl). simpl.
+    destruct (mem k rem) eqn:R; auto.
+    destruct (d_get k (to_dict s)) eqn:G; auto.
+    exfalso. apply mem_false in R. apply R. unfold rem. apply filter_In. split.
+    + apply d_get_Some_keys. congruence.
+    + rewrite M. reflexivity.
+Qed.
+
+(* sets *)
+Lemma In_set_add : forall x y l, In x (set_add y l) <-> x = y \/ In x l.
+Proof.
+  intros; unfold set_add. destruct (mem y l) eqn:M.
+  - split; auto. intros [->|H]; auto. apply mem_In; auto.
+  - rewrite in_app_iff. simpl. split; [intros [H|[H|[]]]; auto|intros [H|H]; auto].
+Qed.
+Lemma In_set_union : forall vs l x, In x (set_union l vs) <-> In x l \/ In x vs.
+Proof.
+  unfold set_union. induction vs as [|v r IH]; intros l x; simpl.
+  - split; auto. intros [H|[]]; auto.
+  - rewrite IH, In_set_add. split; [intros [[H|H]|H]; auto|intros [H|[H|H]]; auto].
+Qed.
+Lemma In_set_diff : forall a b x, In x (set_diff a b) <-> In x a /\ ~ In x b.
+Proof.
+  intros; unfold set_diff. rewrite filter_In. rewrite negb_true_iff, mem_false. reflexivity.
+Qed.
+
+Theorem proxy_set_assign_view : forall s vs, wfs s ->
+  wfs (ps_assign s vs) /\ forall x, In x (to_list (ps_assign s vs)) <-> In x vs.
+Proof.
+  intros s vs W. unfold ps_assign.
+  destruct (ps_update_view vs s W) as [W1 E1].
+  destruct (ps_diffupdate_view (filter (fun x => negb (mem x vs)) (to_list s)) _ W1) as [W2 E2].
+  split; auto. intros x. rewrite E2, E1, In_set_diff, In_set_union, filter_In, negb_true_iff, mem_false.
+  destruct (mem x vs) eqn:M.
+  - apply mem_In in M. tauto.
+  - apply mem_false in M. tauto.
 Qed.
